@@ -153,13 +153,46 @@ func c15WhoWrites(c *Ctx) {
 	E := guardsEngine(P)
 	nStores, nTableStores, nUses := 0, 0, 0
 	sawEnable, sawDisable, sawAdd := false, false, false
+	// constructor-only helpers: unexported functions every caller of which (in the whole program's call graph) is a
+	// constructor or such a helper; their stores are constructor stores
+	topOf := func(f *ssa.Function) *ssa.Function {
+		for f.Parent() != nil {
+			f = f.Parent()
+		}
+		return f
+	}
+	isCtorName := func(f *ssa.Function) bool { return c15CtorRe.MatchString(f.Name()) || f.Name() == "init" }
+	ctorOnly := map[*ssa.Function]bool{}
+	cg := P.CallGraph()
+	for changed := true; changed; {
+		changed = false
+		for _, f := range fns {
+			if f.Parent() != nil || ctorOnly[f] || isCtorName(f) || f.Object() == nil || f.Object().Exported() {
+				continue
+			}
+			n := cg.Nodes[f]
+			if n == nil || len(n.In) == 0 {
+				continue
+			}
+			all := true
+			for _, e := range n.In {
+				caller := topOf(e.Caller.Func)
+				if !(isCtorName(caller) || ctorOnly[caller]) {
+					all = false
+					break
+				}
+			}
+			if all {
+				ctorOnly[f] = true
+				changed = true
+				r.Saw("constructor-only helpers (all callers are constructors)", guards.FuncShort(f))
+			}
+		}
+	}
 	for _, f := range fns {
 		name := guards.FuncShort(f)
-		top := f
-		for top.Parent() != nil {
-			top = top.Parent()
-		}
-		isCtor := c15CtorRe.MatchString(top.Name()) || top.Name() == "init"
+		top := topOf(f)
+		isCtor := isCtorName(top) || ctorOnly[top]
 		r.Saw("band functions scanned for channel-table writes", name)
 		for _, b := range f.Blocks {
 			for _, ins := range b.Instrs {
@@ -390,6 +423,58 @@ func c15ClassifyIndexFn(f *ssa.Function) (c15IndexFn, string) {
 	}
 	phi, ok := ret.Results[0].(*ssa.Phi)
 	if !ok {
+		// delegation: return helper(recv, func(c Channel) bool { return [!]c.field }) — the sibling must delegate to
+		// the same helper with the complementary predicate
+		if call, isCall := ret.Results[0].(*ssa.Call); isCall {
+			if callee := call.Call.StaticCallee(); callee != nil && callee.Blocks != nil && len(f.Blocks) == 1 {
+				for _, a := range call.Call.Args {
+					var pf *ssa.Function
+					switch x := a.(type) {
+					case *ssa.Function:
+						pf = x
+					case *ssa.MakeClosure:
+						if len(x.Bindings) == 0 {
+							pf, _ = x.Fn.(*ssa.Function)
+						}
+					}
+					if pf == nil || len(pf.Blocks) != 1 || len(pf.Params) != 1 {
+						continue
+					}
+					pr, ok := pf.Blocks[0].Instrs[len(pf.Blocks[0].Instrs)-1].(*ssa.Return)
+					if !ok || len(pr.Results) != 1 {
+						continue
+					}
+					v, positive := pr.Results[0], true
+					for {
+						u, isNot := v.(*ssa.UnOp)
+						if !isNot || u.Op != token.NOT {
+							break
+						}
+						positive = !positive
+						v = u.X
+					}
+					// the field of the parameter: Field(param) or load of FieldAddr(alloc holding param)
+					field := ""
+					switch x := v.(type) {
+					case *ssa.Field:
+						if x.X == ssa.Value(pf.Params[0]) {
+							field = x.X.Type().Underlying().(*types.Struct).Field(x.Field).Name()
+						}
+					case *ssa.UnOp:
+						if fa, ok := x.X.(*ssa.FieldAddr); ok && x.Op == token.MUL {
+							if al, ok := fa.X.(*ssa.Alloc); ok {
+								if st, ok := al.Type().Underlying().(*types.Pointer).Elem().Underlying().(*types.Struct); ok && c15AllocHolds(al, pf.Params[0]) {
+									field = st.Field(fa.Field).Name()
+								}
+							}
+						}
+					}
+					if field != "" && c15IsChannelType(pf.Params[0].Type()) {
+						return c15IndexFn{table: "via " + guards.FuncShort(callee), field: field, positive: positive}, ""
+					}
+				}
+			}
+		}
 		return c15IndexFn{}, "result is not built in a loop"
 	}
 	var app *ssa.Call
@@ -668,4 +753,18 @@ func c15QueriesPure(c *Ctx) {
 	if n == 0 {
 		r.Unknown(rule, "band.Get*", "", "query methods found", "none")
 	}
+}
+
+// c15AllocHolds: the only store into the local is the parameter (a spilled by-value parameter).
+func c15AllocHolds(al *ssa.Alloc, p *ssa.Parameter) bool {
+	n := 0
+	for _, r := range *al.Referrers() {
+		if st, ok := r.(*ssa.Store); ok && st.Addr == ssa.Value(al) {
+			if st.Val != ssa.Value(p) {
+				return false
+			}
+			n++
+		}
+	}
+	return n == 1
 }
